@@ -599,7 +599,8 @@ pub fn gen_c08_pairs(ch: &mut Chunker, r: &mut Rng, scale: usize) {
             r.pick(&c).to_string()
         };
         let ii1 = r.pick(&all).to_string();
-        let si1 = r.pick(&all).to_string();
+        // a third of the pairs start from identical initial and subsequent indents (their partners usually differ)
+        let si1 = if r.chance(1, 3) { ii1.clone() } else { r.pick(&all).to_string() };
         let (ii2, si2) = (partner(r, &ii1), partner(r, &si1));
         let widths = widths_for(r, &text, &ii1, &si1, false);
         for _ in 0..4 {
@@ -880,7 +881,12 @@ pub fn rec_c15(ch: &mut Chunker, para: &str, trail: bool, o: &Opts) {
     let _ = unfill_json;
 }
 
-const PLAIN_VOCAB: &[&str] = &["a", "I", "to", "be", "or", "not", "foo", "bar", "baz", "x1", "42", "the", "quick", "brown", "hello", "world", "wrapping", "it's", "a.b", "x_y", "end.", "(z)", "q?", "r2d2", "caf\u{e9}"];
+const PLAIN_VOCAB: &[&str] = &[
+    "a", "I", "to", "be", "or", "not", "foo", "bar", "baz", "x1", "42", "the", "quick", "brown", "hello", "world", "wrapping", "it's", "a.b", "x_y", "end.", "(z)", "q?",
+    "r2d2", "caf\u{e9}",
+    // multi-byte words (byte length and display width differ in both directions) and words that END in a prefix character
+    "\u{e9}\u{e9}\u{e9}", "cr\u{e8}me", "\u{fc}ber", "na\u{ef}ve", "\u{65e5}\u{672c}\u{8a9e}", "\u{4f60}\u{597d}", "\u{1f602}", "e\u{301}e\u{301}", "C++", "C#", "src/", "x*", "a-", "ok>",
+];
 
 fn gen_plain_para(r: &mut Rng, maxw: usize) -> String {
     let n = r.range(1, maxw);
